@@ -9,9 +9,9 @@ NCF = ['-fno-sanitize=null']   # libstdc++'s hashtable forms &node->field from a
 CB2 = ['--unwind', '26', '--object-bits', '12', '--paths', 'lifo']
 UNITS = {
   'tg': dict(wrapper='w_tg.cpp', mode='seq', cxxflags=CXX, exceptions=True, prune=True, inline_threshold=225,
-             cut=['receive_or_steal_task'], devirt=DEVIRT),
+             cut=['receive_or_steal_task'], devirt=DEVIRT, m1ptr=True, ptratomics=True),
   'pf': dict(wrapper='w_pf.cpp', mode='seq', cxxflags=CXX, exceptions=True, prune=True, inline_threshold=225,
-             cut=['receive_or_steal_task', 'r114notify_waitersEm'], devirt=DEVIRT),
+             cut=['receive_or_steal_task', 'r114notify_waitersEm'], devirt=DEVIRT, m1ptr=True, ptratomics=True),
 }
 HARNESSES = [
   dict(name='tg_wait', unit='tg', harness='h_tg.c', defines={'SCEN': 1}, scenarios=[{'N': 1, 'REUSE': 0}, {'N': 2, 'REUSE': 1}], scenarios_thorough=[{'N': 1, 'REUSE': 1}, {'N': 2, 'REUSE': 1}, {'N': 3, 'REUSE': 1}, {'N': 4, 'REUSE': 0}],
